@@ -1,16 +1,20 @@
 #!/venv/bin/python
 """Store the confirmed seeded changes under /verif/seeded/ and print the DESIGN.md table."""
 import json, os, re, shutil, sys
-tab = json.load(open("/verif/tools/seed_table.json"))
+# usage: collect_seeds.py [table.json id-prefix log...]   (default: waves 1+2)
+TABLE = sys.argv[1] if len(sys.argv) > 1 else "/verif/tools/seed_table.json"
+PREFIX = sys.argv[2] if len(sys.argv) > 2 else ""
+LOGS = sys.argv[3:] or ["/tmp/wt/confirm_wave1.log", "/tmp/wt/confirm_wave2.log"]
+tab = json.load(open(TABLE))
 logs = ""
-for f in ("/tmp/wt/confirm_wave1.log", "/tmp/wt/confirm_wave2.log"):
+for f in LOGS:
     if os.path.exists(f):
         logs += open(f).read()
 conf = {}
 for ln in logs.splitlines():
     m = re.match(r"(C\d\d)/([ab]) (.*)", ln)
     if m:
-        key = m.group(1) + m.group(2)
+        key = PREFIX + m.group(1) + m.group(2)
         ok = ("demo with patch exit=1, clean exit=0" in ln) and (re.search(r"tests\(no hypothesis deadline\): \s*\d+ passed", ln) or re.search(r"tests: \d+ passed", ln) or "retry: 2457 passed" in ln)
         if ok or key not in conf:
             conf[key] = (bool(ok), ln.strip())
@@ -30,7 +34,7 @@ for sid, e in sorted(tab.items()):
         "id": sid, "breaks_property": e["p"],
         "origin": "independent sub-agent that was given only the property text and its own scratch worktree of /repo (nothing from /verif)",
         "needs_to_manifest": e["needs"],
-        "confirmed": {"how": "in the scratch worktree /tmp/wt/%s: git apply patch.diff; pytest -q -p no:cacheprovider --timeout=900 -n 6|8 (hypothesis deadlines disabled through a -p plugin when the shared machine was loaded); demo.py with the patch (must exit 1) and on the clean tree (must exit 0)" % e["p"], "log": line},
+        "confirmed": {"how": "in the scratch worktree /tmp/wt/%s: git apply patch.diff; pytest -q -p no:cacheprovider --timeout=900 -n 6|8 (hypothesis deadlines disabled through a -p plugin when the shared machine was loaded); demo.py with the patch (must exit 1) and on the clean tree (must exit 0)" % e["src"].split("/")[0], "log": line},
         "checks_run": "tools/eval_seed.sh <seed dir> <checks>: git -C /repo apply patch.diff; ./run check <id> --tier quick; git -C /repo checkout -- .",
         "detected_by": e["det"].split(","),
         "missed_before_strengthening": e["missed"],
